@@ -15,8 +15,8 @@
    One clause per sentence of the property (names = vocabulary of reports).
    --only-largest-block is a relation: a selection under which the routing (and
    the histogram) is right is looked for; if there is none, one that explains the
-   routing alone, else the histogram alone, else an arbitrary one is used and the
-   corresponding clauses fail.                                                  *)
+   histogram alone (the histogram shows the classes the implementation used), else
+   the routing alone, else an arbitrary one is used; the unexplained clauses fail. *)
 EXTENDS Split, Json, IOUtils, TLC
 Trace == ndJsonDeserialize(IOEnv.TRACE_FILE)
 VARIABLE l
@@ -41,8 +41,8 @@ JudgeSplit(e) ==
         HistOK(s) == ~e.histreq \/ HistCounts(list, opt, s, out, rows)
         R(s) == Routing(reads, list, opt, s, out)
         sel == IF \E s \in S : R(s) /\ HistOK(s) THEN CHOOSE s \in S : R(s) /\ HistOK(s)
-               ELSE IF \E s \in S : R(s) THEN CHOOSE s \in S : R(s)
                ELSE IF \E s \in S : HistOK(s) THEN CHOOSE s \in S : HistOK(s)
+               ELSE IF \E s \in S : R(s) THEN CHOOSE s \in S : R(s)
                ELSE CHOOSE s \in S : TRUE
     IN
     IF ~InDomain(e) THEN Fail(e, "ScenarioInDomain")
